@@ -46,3 +46,6 @@ pub use cli::Cli;
 pub use generator::Generator;
 pub use mutators::{EmissionSnapshot, Mutator, MutatorKind};
 pub use protocol::Version;
+
+#[cfg(feature = "verif")]
+pub mod verif;
